@@ -2,6 +2,10 @@
 import Driver.Codec
 open Lean Gamba Driver
 
+def kindOf (s : String) : CheckAll.Kind :=
+  match s with
+  | "dfa" => .dfa | "nfa" => .nfa | "pda" => .pda | "tm" => .tm | "cfg" => .cfg | _ => .regexp
+
 def handle (j : Json) : Except String Json := do
   let op ← getStr j "op"
   match op with
@@ -281,6 +285,11 @@ def handle (j : Json) : Except String Json := do
       | "cfg_language_words" => CheckText.cfgLanguageWords ans (gs "words") (gn "len")
       | "dfa_language_file" => CheckText.dfaLanguageFile ans ref (gn "len")
       | "nfa_language_file" => CheckText.nfaLanguageFile ans ref sched (gn "len")
+      | "lang_words" => CheckAll.languageWords (kindOf (gs "kind")) ans (gs "words") { sched := sched } (gn "len") (gn "max")
+      | "lang_file" => CheckAll.languageFile (kindOf (gs "kind")) (kindOf (gs "rkind")) ans ref { sched := sched } (gn "len")
+      | "nfa_states" => CheckAll.numberOfNfaStates ans (gn "count")
+      | "cfg_accepts" => (CheckAll.cfgAccepts ans (gs "words")).1
+      | "cfg_rejects" => (CheckAll.cfgRejects ans (gs "words")).1
       | _ => CheckText.Verdict.error
     pure (okJ (Json.str v.toString))
   | "chk_cex" => do
@@ -305,6 +314,8 @@ def handle (j : Json) : Except String Json := do
       | "cfg_language_words" => CheckCex.report (CheckCex.cfgLanguageWordsLangs ans (gs "words") (gn "len"))
       | "dfa_language_file" => CheckCex.report (CheckCex.dfaLanguageFileLangs ans ref (gn "len"))
       | "nfa_language_file" => CheckCex.report (CheckCex.nfaLanguageFileLangs ans ref sched (gn "len"))
+      | "lang_words" => CheckCex.report (CheckAll.languageWordsLangs (kindOf (gs "kind")) ans (gs "words") { sched := sched } (gn "len"))
+      | "lang_file" => CheckCex.report (CheckAll.languageFileLangs (kindOf (gs "kind")) (kindOf (gs "rkind")) ans ref { sched := sched } (gn "len"))
       | _ => none
     pure (okJ (match r with
       | none => Json.null
